@@ -615,3 +615,33 @@ def inject_cases(graphs, seed, tag, per_case=10, big=0):
                 steps.append(dict(op="drop", g=k))
             yield flow_case("%s-%d-%d" % (tag, seed, cid), grid, steps)
             cid += 1
+
+
+def deep_cases(tag, which, quick=True):
+    """Worlds that are DEEP rather than wide: one flow path of more than 2^16 nodes (a monotonic profile),
+    a trunk with thousands of consecutive confluences (a long narrow valley whose flanks drain sideways).
+    Depth counters, level numbers, traversal stacks and recursion of the implementation are only stressed
+    there; the order contracts are evaluated in their linear form (verified certificates)."""
+    if "path" in which:
+        n = 70001 if quick else 140003
+        for j, ops in enumerate([[gen.op_single()], [gen.op_multi(4)]] if quick else
+                                [[gen.op_single()], [gen.op_multi(4)], [gen.op_pflood(), gen.op_single()]]):
+            g = gen.profile(n, [gen.FV, gen.CORE])
+            z = dict(k="int", m=list(range(n)), e=0)
+            steps = [dict(op="new", g=0, ops=ops, via=""), dict(op="bl", g=0, bl=[0]), dict(op="update", g=0, z=z)]
+            if all(o["k"] != "multi" for o in ops):
+                steps.append(dict(op="basins", g=0))
+            steps.append(dict(op="drop", g=0))
+            yield flow_case("%s-path-%d" % (tag, j), g, steps, timeout_ms=120000)
+    if "valley" in which:
+        nr, nc = (2600, 5) if quick else (5200, 5)
+        g = gen.raster(nr, nc, "rook", [gen.CORE] * 4)
+        m = [r + 10 * abs(c - 2) for r in range(nr) for c in range(nc)]
+        mask = [0] * (nr * nc)
+        mask[0] = 1
+        z = dict(k="int", m=m, e=0)
+        steps = [dict(op="new", g=0, ops=[gen.op_single()], via=""), dict(op="mask", g=0, m=mask, form=""),
+                 dict(op="bl", g=0, bl=[2, nr * nc - 1]),
+                 dict(op="update", g=0, z=z), dict(op="basins", g=0), dict(op="update", g=0, z=z), dict(op="basins", g=0),
+                 dict(op="drop", g=0)]
+        yield flow_case("%s-valley" % tag, g, steps, timeout_ms=120000)
